@@ -117,7 +117,9 @@ func (d *Driver) judgeC03as(prop string) {
 					}
 				}
 			}
-			if lost && e >= t.Start && (tL < 0 || e < tL) {
+			// (the record may be lost between the application of the acquisition and the promotion:
+			// the term then starts over a record that is already gone)
+			if lost && (tL < 0 || e < tL) {
 				tL, cause = e, c
 			}
 		}
@@ -153,10 +155,20 @@ func (d *Driver) judgeC03as(prop string) {
 					} else if cb := d.demoteCbAfter(t.Inst, t.Gen, t.SEnd); d.expectsOnDemote(t.Inst, t.Gen, t.SEnd) && (cb == nil || cb.T > deadline+slack+d.stallIn(t.Inst, deadline, cb.T)) {
 						d.h.violate(prop, "ondemote-late-after-record-loss/record-"+cause, fmt.Sprintf("i%d.%d lost its record at %v, claim cleared at %v, OnDemote not run by %v", t.Inst, t.Gen, tL, fallT, deadline), deadline, a1.SRet)
 					}
-					if a1.TRet > tL+p.H+2*T+d.stallIn(t.Inst, tL, a1.TRet)+time.Millisecond {
+					base := tL
+					if t.Start > base {
+						base = t.Start // the first heartbeat comes one interval after the promotion
+					}
+					if a1.TRet > base+p.H+2*T+d.stallIn(t.Inst, tL, a1.TRet)+time.Millisecond {
 						d.h.violate(prop, "next-heartbeat-later-than-H+2T/record-"+cause, fmt.Sprintf("i%d.%d: record %s at %v but the next heartbeat attempt completed only at %v (> H + 2 time-outs)", t.Inst, t.Gen, cause, tL, a1.TRet), a1.TRet, a1.SRet)
 					}
 				}
+			} else if a1 != nil && class(a1) == "ok" && cause == "replaced" && a1.PrevLive != nil && !(a1.PrevLive.Writer == t.Inst && a1.PrevLive.Gen == t.Gen) {
+				// the record was replaced by somebody else and the instance's next refresh went
+				// through all the same (it presented the other party's revision): the instance goes
+				// on leading over a record that it has taken back by accident
+				d.judgedInc(prop)
+				d.h.violate(prop, "refresh-succeeded-after-record-replaced", fmt.Sprintf("i%d.%d: its record was replaced at %v by seq=%d (written by i%d); its next heartbeat attempt (#%d) overwrote that record at %v and it goes on reporting leadership", t.Inst, t.Gen, tL, a1.PrevLive.Seq, a1.PrevLive.Writer, a1.ID, a1.TApply), a1.TApply, a1.SApply)
 			} else {
 				d.skip(prop, "clause1-mixed-or-no-verdict")
 			}
@@ -1209,7 +1221,7 @@ func (d *Driver) judgeC06() {
 					// stopped, restarted or crashed before its deadline => not a candidate over the window
 					gone := false
 					for _, a := range d.h.Apis {
-						if a.Inst == in.idx && a.TInv > st.TInv && a.TInv <= deadline && (a.Kind == AStop || a.Kind == AStopCtx || a.Kind == ARestart || a.Kind == AStart || a.Kind == ACancelStart) {
+						if a.Inst == in.idx && a.SInv > st.SInv && a.TInv <= deadline && (a.Kind == AStop || a.Kind == AStopCtx || a.Kind == ARestart || a.Kind == AStart || a.Kind == ACancelStart) {
 							gone = true
 						}
 					}
